@@ -29,7 +29,6 @@ ONE_KERNEL = [
     "1.5.3_single_invoke_write_any_anyd_space.f90",     # inc any + write anyd
     "15.1.1_X_plus_Y_builtin.f90",                      # built-in, gh_write
     "15.1.2_inc_X_plus_Y_builtin.f90",                  # built-in, readwrite
-    "1.14_single_invoke_dofs.f90",                      # kernel over dofs
     "25.0_domain.f90",                                  # kernel on the domain
     "10.1_operator_nofield.f90",                        # operator only
     "c23_single_readinc.f90",                           # gh_readinc, w0
